@@ -192,6 +192,8 @@ def rdiv(a, b):
             y = z3.ToReal(y)
         return x / y
     a, b = conc(a), conc(b)
+    if b == 0:
+        return Fraction(0)  # concrete reading of a guarded clause: the guard decides, the value is unused
     return Fraction(a) / Fraction(b)
 
 
